@@ -1,6 +1,7 @@
 package client
 
 import (
+	"bytes"
 	"context"
 	"errors"
 	"fmt"
@@ -471,8 +472,22 @@ func (c *Client) TwoPhaseCommit(ctx context.Context, primary []byte, mutations [
 			return err
 		}
 	}
-	if err := c.commitRegion(ctx, primaryID, collectKeys(primaryMutations), startVersion, commitVersion); err != nil {
+	// The primary key decides the transaction: it is committed first and on its
+	// own. Committing it in one request together with other keys of its region
+	// lets the store commit a secondary before the primary is known to commit.
+	if err := c.commitRegion(ctx, primaryID, [][]byte{append([]byte(nil), primary...)}, startVersion, commitVersion); err != nil {
 		return err
+	}
+	var primaryRegionRest [][]byte
+	for _, key := range collectKeys(primaryMutations) {
+		if !bytes.Equal(key, primary) {
+			primaryRegionRest = append(primaryRegionRest, key)
+		}
+	}
+	if len(primaryRegionRest) > 0 {
+		if err := c.commitRegion(ctx, primaryID, primaryRegionRest, startVersion, commitVersion); err != nil {
+			return err
+		}
 	}
 	for regionID, muts := range grouped {
 		if regionID == primaryID {
